@@ -235,6 +235,9 @@ func c02(tier string) []*explore.Scenario {
 	out = append(out, httpResponseLost("C02"))
 	out = append(out, apiSeqs("C02", tier)...)
 	out = append(out, handlerSeqs("C02", tier)...)
+	for _, kind := range []string{"Bidi", "SStream", "CStream"} {
+		out = append(out, c03HandlerErrorValues("C02", kind, 0))
+	}
 	out = append(out, opInWriteAll("C02", 0)...)
 	// finer granularity (a scheduling point after every Unlock as well) on the small core scenarios
 	out = append(out, fineGrained(c02One([]streamCase{{"Bidi", "pingpong", "echo", 2, 0, 0}}, 0, 1), c02One([]streamCase{{"Bidi", "concurrent", "echo", 2, 0, 0}}, 64, 1), c02One([]streamCase{{"Bidi", "sendall", "retearly", 2, 1, 0}}, 64, 1))...)
